@@ -40,8 +40,6 @@ type mSeries struct {
 	Labels [][2]string `json:"labels"` // document order as stored; names distinct, values non-empty
 	Ts     []int64     `json:"ts"`     // ms relative to baseMs, strictly ascending
 	Vals   []float64   `json:"vals"`
-	// Old: the series also has one sample exactly one day earlier (index rows on two days).
-	Old bool `json:"old,omitempty"`
 	// Kind: 2 metric (default, stored as 0 in the case), 1 = a log stream with the same label
 	// vocabulary (type 1 rows): never part of a metric selection.
 	Log bool `json:"log,omitempty"`
@@ -106,9 +104,6 @@ func (db *mDB) buildCH() *chsim.DB {
 			}
 			samples = append(samples, []any{s.Fp, tsMs * 1_000_000, v, str, s.kind()})
 			days[tsMs/dayMs] = true
-		}
-		if s.Old && len(s.Ts) > 0 {
-			add(baseMs+s.Ts[0]-dayMs, s.Vals[0])
 		}
 		for k, t := range s.Ts {
 			add(baseMs+t, s.Vals[k])
@@ -461,7 +456,11 @@ func genMDB(rt *rapid.T, maxSeries int, genSamples func(rt *rapid.T, i int) ([]i
 		fps[fp] = true
 		s.Fp = fp
 		s.Ts, s.Vals = genSamples(rt, i)
-		s.Old = chance(rt, 10, "old")
+		if chance(rt, 10, "old") && len(s.Ts) > 0 {
+			// one more sample exactly a day before the first: index rows on two days
+			s.Ts = append([]int64{s.Ts[0] - dayMs}, s.Ts...)
+			s.Vals = append([]float64{s.Vals[0]}, s.Vals...)
+		}
 		s.Log = chance(rt, 6, "log")
 		db.Series = append(db.Series, s)
 	}
